@@ -1196,7 +1196,11 @@ class ClassicChannel(utils.EventEmitter):
         self.connection_result = None
         self.disconnection_result = None
         self.sink = None
-        self.fcs_enabled = spec.fcs_enabled
+        # FCS can only be used when the local L2CAP entity supports the FCS option.
+        self.fcs_enabled = spec.fcs_enabled and (
+            L2CAP_Information_Request.ExtendedFeatures.FCS_OPTION
+            in manager.extended_features
+        )
         self.spec = spec
         self.mode = spec.mode
         # Configure mode-specific processor later on configure request.
@@ -1458,7 +1462,8 @@ class ClassicChannel(utils.EventEmitter):
                     enabled = option[1][0] != 0
                     logger.debug("Peer requests FCS: %s", enabled)
                     if (
-                        L2CAP_Information_Request.ExtendedFeatures.FCS_OPTION
+                        not enabled
+                        or L2CAP_Information_Request.ExtendedFeatures.FCS_OPTION
                         in self.manager.extended_features
                     ):
                         self.fcs_enabled = enabled
@@ -1468,7 +1473,8 @@ class ClassicChannel(utils.EventEmitter):
                         result = (
                             L2CAP_Configure_Response.Result.FAILURE_UNACCEPTABLE_PARAMETERS
                         )
-                        replied_options = [option]
+                        # Suggest the value that would be accepted: no FCS.
+                        replied_options = [(option[0], bytes([0]))]
                         break
                 case _:
                     logger.debug(
@@ -1526,15 +1532,24 @@ class ClassicChannel(utils.EventEmitter):
             response.result
             == L2CAP_Configure_Response.Result.FAILURE_UNACCEPTABLE_PARAMETERS
         ):
-            # Re-configure with what's suggested in the response
-            self.send_control_frame(
-                L2CAP_Configure_Request(
-                    identifier=self.manager.next_identifier(self.connection),
-                    destination_cid=self.destination_cid,
-                    flags=0x0000,
-                    options=response.options,
+            # Adopt what's suggested in the response, then re-configure.
+            adopted = False
+            for option in L2CAP_Control_Frame.decode_configuration_options(
+                response.options
+            ):
+                if option[0] == L2CAP_Configure_Request.ParameterType.MTU:
+                    self.mtu = struct.unpack('<H', option[1])[0]
+                    adopted = True
+                elif option[0] == L2CAP_Configure_Request.ParameterType.FCS:
+                    self.fcs_enabled = option[1][0] != 0
+                    adopted = True
+            if adopted:
+                self.send_configure_request()
+            else:
+                # Sending the same request again would be rejected again.
+                logger.warning(
+                    color('!!! configuration rejected: no usable suggestion', 'red')
                 )
-            )
         else:
             logger.warning(
                 color(
